@@ -867,9 +867,9 @@ static void check_names(const GModel &m) {
 }
 
 // ---------------------------------------------------------------- number codec test: g_fmt -> strtod (labelled TEST, not proof)
-static long g_bad_printed = 0;
+static long g_bad_printed = 0, g_bad_cap = 4000;
 static void report_bad(const char *stream, double x, const char *printed, double y, bool consumed_all) {
-  if (g_bad_printed++ < 40000) std::printf("GB %s %s %s%s %s\n", stream, hexd(x).c_str(), printed, consumed_all ? "" : "+junk", hexd(y).c_str());
+  if (g_bad_printed++ < g_bad_cap) std::printf("GB %s %s %s%s %s\n", stream, hexd(x).c_str(), printed, consumed_all ? "" : "+junk", hexd(y).c_str());
 }
 static bool adjacent_bits(double x, double y) {
   uint64_t a, b; std::memcpy(&a, &x, 8); std::memcpy(&b, &y, 8);
@@ -1052,6 +1052,7 @@ int main(int argc, char **argv) {
   }
 
   bool thorough = tier == "thorough";
+  g_bad_cap = thorough ? 40000 : 4000;
   long nmodels = thorough ? 1500 : 220;
   long id = 0;
   // fixed part: one model per finding class + sizes 1..3, then seeded models
